@@ -196,7 +196,13 @@ def execute(sim, scn):
             else:
                 windows.append([a])
         inv = [i for i in invocations if i[2] == cl.addr and i[3] == q["mid"]]
-        if not ambiguous:
+        # a transport error reported for the client in the very instant a request arrives stops its processing before
+        # the handler was even started: such a window may have no invocation
+        icmp_ts0 = [ic["t"] for ic in scn.get("icmps", []) if ic["client"] == q["client"]]
+        cut_short = sum(1 for w in windows if any(abs(ti - w[0]) <= TOL for ti in icmp_ts0))
+        if not ambiguous and cut_short and len(windows) - cut_short <= len(inv) <= len(windows):
+            pass
+        elif not ambiguous:
             if len(inv) > len(windows):
                 sim.violation("C04/handler-invoked-for-duplicate", dict(ident, invocations=[i[0] for i in inv],
                                                                        windows=windows))
